@@ -184,6 +184,11 @@ def run_case(data):
             got = [e for e in o.events if e[0] == 'AlternativeServiceAvailable']
             if o.frames or len(got) != len(o.events):
                 w.violate('recv-altsvc:%s:side-effects' % form, '%r %r' % (o.events, o.frames))
+            if want is None and got and got != [('AlternativeServiceAvailable', authority.get(sid), field)]:
+                # whether a promised stream yields the event is left open; if it does, the origin is that of the
+                # promised request (RFC 7838 s4: "the origin of that stream"), not of anything else
+                w.violate('recv-altsvc:%s:pushed-stream-wrong-origin' % form, 'want origin %r got %r' %
+                          (authority.get(sid), got))
             if want is not None and got != want:
                 w.violate('recv-altsvc:%s:%s' % (form, 'event-missing-or-wrong' if want else 'not-ignored'),
                           'want %r got %r (%s)' % (want, got, w.tag(sid)))
